@@ -3,7 +3,7 @@
    table. Per-layout side conditions are decidable and closed by vm_compute over the 73 generated
    layouts; the quantification over values / byte strings comes from the generic theorems. *)
 Require Import Coq.Strings.String.
-Require Import Base.Bytes Wire.Layout Wire.Customs Wire.LayoutProofs Wire.CustomProofs Wire.Packet.
+Require Import Base.Bytes Wire.Layout Wire.Customs Wire.LayoutProofs Wire.CustomProofs Wire.Packet Wire.PacketChecks.
 Require Import Gen.Packets Net.Frame Net.FrameProofs.
 Require Import ZifyN ZifyNat ZifyBool.
 Ltac Zify.zify_post_hook ::= Z.div_mod_to_equations.
@@ -18,8 +18,6 @@ Proof.
 Qed.
 
 (* ================= totality (C04) ================= *)
-Definition kind_panic_free (e : N * string * pkind) : bool :=
-  match snd e with KLayout l => panic_free l | KMso => true end.
 Lemma table_panic_free : forallb kind_panic_free packet_table = true.
 Proof. vm_compute. reflexivity. Qed.
 
@@ -48,18 +46,6 @@ Proof. apply decode_never_panics. exact parse_total. Qed.
 (* ================= length (C03) ================= *)
 Notation fwidth := (fixed_width cwidth).
 
-Definition tail_mod4 (t : tail) : bool :=
-  match t with
-  | TNone | TWords => true
-  | TVec elt pm pk =>
-      let ew := fwidth elt in
-      (Nat.eqb (Nat.modulo ew 4) 0 && Nat.eqb pm 1)
-      || (Nat.eqb pm 2 && Nat.eqb (Nat.modulo ew 4) 2 && Nat.eqb (Nat.modulo pk 4) 2)
-  | TTextEof mx al => Nat.eqb al 4 && Nat.eqb (Nat.modulo mx 4) 0
-  end.
-Definition size4 (l : layout) : bool :=
-  Nat.eqb (Nat.modulo (2 + fwidth (fixed l)) 4) 0 && tail_mod4 (ltail l) && tail_align_ok (ltail l).
-
 Lemma tail_size_mod4 t tv : tail_mod4 t = true -> Nat.modulo (tail_size cwidth t tv) 4 = 0%nat.
 Proof.
   destruct t as [|elt pm pk| |mx al]; destruct tv; cbn [tail_mod4 tail_size]; intros H; try reflexivity.
@@ -85,8 +71,6 @@ Proof.
     apply round_up_mod. lia.
 Qed.
 
-Definition kind_size4 (e : N * string * pkind) : bool :=
-  match snd e with KLayout l => size4 l | KMso => true end.
 Lemma table_size4 : forallb kind_size4 packet_table = true.
 Proof. vm_compute. reflexivity. Qed.
 
